@@ -432,6 +432,9 @@ func (w *World) monProposals(n *node, kind string, in *pb.Message, pre, post *ra
 // monReads: C11 production-side oracle.
 func (w *World) monReads(n *node, kind string, in *pb.Message, pre, post *raft.VerifState, created []*pb.Message) {
 	m := w.mon
+	if w.Cfg.Lease {
+		return // ReadOnlyLeaseBased relies on clocks; property C11 is about ReadOnlySafe
+	}
 	if kind == "readindex" && m.curRead != nil {
 		if _, ok := n.readRecv[string(m.curRead)]; !ok {
 			n.readRecv[string(m.curRead)] = w.clock
